@@ -227,12 +227,17 @@ class World:
             's3': DOC_BACKENDS['s3'],
             'local': DOC_BACKENDS['local'],
         }
-        self.files = {}
-        for r in self.general:
+        # secret files are a value class of their own: the bytes that reach the command are the bytes of the file, whatever
+        # they end with (newline, CRLF, blanks) and whichever source names the file
+        self.files, k = {}, 0
+        endings = [b'', b'\n', b'\r\n', b'\n\n', b' \n', b'\t', b'\r']
+        for r in self.general + [{'name': 'new-password-file'}, {'name': 'shared-secret'}]:
             for src in SOURCES:
                 p = self.root / 'files' / f'{r["name"]}-{src}'
-                p.write_text(f'content of {r["name"]} from {src}')
+                p.write_bytes(f'content of {r["name"]} from {src}'.encode() + endings[k % len(endings)])
+                k += 1
                 self.files[(r['name'], src)] = str(p)
+        self.missing_file = str(self.root / 'files' / 'does-not-exist')
         self.n = 0
 
     def rows(self, backend):
@@ -329,6 +334,15 @@ class World:
             control.append(('--ignore-config', ['--ignore-config'], None))
         for _ in range(case.get('verbose', 0)):
             control.append(('--verbose', ['--verbose'], None))
+        if case.get('default_location'):
+            # the same file at the DEFAULT location of a HOME of its own; neither --config nor --ignore-config is given
+            home = self.root / f'home{self.n}'
+            (home / '.config' / 'replicat').mkdir(parents=True)
+            cfgs = [v for c, _, v in control if c == '--config']
+            (home / '.config' / 'replicat' / 'replicat.toml').write_text(Path(cfgs[0]).read_text() if cfgs else '')
+            control = [x for x in control if x[0] not in ('--config', '--ignore-config')]
+            env['HOME'] = str(home)
+        items += [(f, [f], v) for f, v in case.get('argv_extra', [])]
         respell = case.get('respell') or {}
         argv = [cmd]
         for canon, flags, v in control + items:
@@ -457,6 +471,35 @@ def spelling_cases(world, ctx, backends, per_option):
     return cases
 
 
+def secret_file_cases(world):
+    """File-valued options beyond the tables: -N/--new-password-file of add-key; the default-location configuration file
+    (HOME) against the same file named with --config, with existing and MISSING secret files."""
+    rows = {r['name']: r for r in world.rows('pc')}
+    cases = []
+    for src in SOURCES:
+        for flag in ('-N', '--new-password-file'):
+            c = world.make_case('pc', 'add-key', [], kind='newpw', label=world.files[('new-password-file', src)])
+            c['argv_extra'] = [(flag, world.files[('new-password-file', src)])]
+            cases.append(c)
+    scen = []
+    for fileopt in ('password-file', 'key-file'):
+        for missing in (False, True):
+            for sec in ('dflt', 'prof'):
+                path = world.missing_file if missing else world.files[(fileopt, sec)]
+                given = [(rows['concurrent'], 'dflt', 13), (rows[fileopt], sec, path), (rows['log-level'], sec, 'debug'),
+                         (rows['port'], 'dflt', 4321), (rows['secret'], sec, 'word-from-file'), (rows['repository'], 'dflt', 'pc:conn-file')]
+                scen.append((given, missing))
+    scen.append(([(rows['concurrent'], 'dflt', 17), (rows['cache-directory'], 'prof', '/cache/file'), (rows['repository'], 'dflt', 'pc:conn-file')], False))
+    scen.append(([], False))
+    for k, (given, missing) in enumerate(scen):
+        for default_location in (False, True):
+            c = world.make_case('pc', COMMANDS[k % len(COMMANDS)][0], given, selector='dflt',
+                                profile_mode=2 if any(s == 'prof' for _, s, _ in given) else 1, kind='location', label=f'loc{k}')
+            c.update(default_location=default_location, cfgid=f'loc{k}', missing=missing, nomodel=missing)
+            cases.append(c)
+    return cases
+
+
 def precedence_cases(world, ctx, backends, all_commands):
     """every option x every subset of its sources (x every command in the thorough tier)."""
     cases, ci = [], 0
@@ -488,7 +531,7 @@ def agreement_cases(world, ctx, backends):
     """the same string through each string-taking source alone: the effective value and type must be the same."""
     cases = []
     strings = {'CoRepo': ['{b}:same-conn', 'local:/same/dir', 'plain/dir'], 'CoNatCli': ['3', '+4', '010'], 'CoPath': ['/same/cache'],
-               'CoBytes': ['same-password', '123', 'true'], 'CoGuessCli': ['123', 'word', 'true', 'None', '2.5', "'quoted'", 'a.b/c:d', '-8']}
+               'CoBytes': ['same-password', '123', 'true'], 'CoReadFile': ['@0', '@1', '@2', '@3'], 'CoGuessCli': ['123', 'word', 'true', 'None', '2.5', "'quoted'", 'a.b/c:d', '-8']}
     ci = 0
     for backend in backends:
         for row in world.rows(backend):
@@ -498,6 +541,8 @@ def agreement_cases(world, ctx, backends):
                 continue
             for s in (strings[row['cli']] if backend == 'pc' else strings[row['cli']][:3]):
                 s = s.format(b=backend)
+                if s.startswith('@'):       # one secret file (ending: none / LF / CRLF / LF LF), named from every source
+                    s = world.files[('shared-secret', SOURCES[int(s[1:])])]
                 if row['cli'] == 'CoRepo' and not s.startswith(backend) and backend != 'local':
                     b2 = 'local'
                 else:
@@ -657,7 +702,8 @@ def model_eff(t, obs, files_content):
 
 # --------------------------------------------------------------------------- checks
 def label(case):
-    return {k: case[k] for k in ('kind', 'backend', 'command', 'given', 'extra', 'selector', 'profile_mode', 'respell', 'verbose', 'argv', 'env') if k in case}
+    return {k: case[k] for k in ('kind', 'backend', 'command', 'given', 'extra', 'selector', 'profile_mode', 'respell', 'verbose',
+                                 'default_location', 'argv_extra', 'missing', 'argv', 'env') if k in case}
 
 
 def observed_value(world, case, obs, dest):
@@ -666,7 +712,7 @@ def observed_value(world, case, obs, dest):
 
 def check(world, cases, rep: Report, with_model=True):
     results = world.run_many(cases)
-    files_content = {p: Path(p).read_text() for p in world.files.values()}
+    files_content = {p: Path(p).read_bytes().decode('latin-1') for p in world.files.values()}
     rows_by_backend = {b: {r['name']: r for r in world.rows(b)} for b in world.backends}
     for case, obs in zip(cases, results):
         rep.case((case['kind'], case['backend'], case['command'], case['given'], case.get('extra'), case['selector'], case['profile_mode'], case.get('respell'), case.get('verbose')), nontrivial=True)
@@ -766,6 +812,48 @@ def check(world, cases, rep: Report, with_model=True):
             rep.violations.append({'what': f'the command line {case["argv"]} is accepted but does not act like the full spelling {case["respell"]}: ' + '; '.join(diff)[:400],
                                    'signature': {'kind': 'spelling', 'option': list(case['respell'])[0]},
                                    'replay': label(case)})
+    # (7) a file-valued option delivers exactly the bytes of the file, whichever source names it
+    for case, obs in zip(cases, results):
+        if obs['status'] != 'ok':
+            continue
+        if case['kind'] == 'newpw':
+            want = ['bytes', files_content[case['label']]]
+            if obs['args'].get('new_password') != want:
+                rep.violations.append({'what': f'{case["argv"]}: the new password is {obs["args"].get("new_password")}, the file holds {want}',
+                                       'signature': {'kind': 'secret_file_bytes', 'option': 'new-password-file'}, 'replay': label(case)})
+        elif case['kind'] in ('precedence', 'agreement') and case['given']:
+            winner = min(case['given'], key=lambda g: SOURCES.index(g[1]))
+            row = rows_by_backend[case['backend']][winner[0]]
+            if row[{'cli': 'cli', 'env': 'env', 'prof': 'file', 'dflt': 'file'}[winner[1]]] == 'CoReadFile' and len({n for n, _, _ in case['given']}) == 1:
+                want = ['bytes', files_content.get(winner[2])]
+                if obs['args'].get(row['dest']) != want:
+                    rep.violations.append({'what': f'option {winner[0]} from {winner[1]} names a file holding {want}; the command receives {obs["args"].get(row["dest"])}',
+                                           'signature': {'kind': 'secret_file_bytes', 'option': winner[0]}, 'replay': label(case)})
+    # (8) the configuration file at its default location acts exactly like the same file named with --config: both are
+    #     refused loudly (a secret file that does not exist), or both give the same effective values
+    loc = {}
+    for case, obs in zip(cases, results):
+        if case['kind'] == 'location':
+            loc.setdefault(case['label'], {})[bool(case.get('default_location'))] = (case, obs)
+    for lab, pair in loc.items():
+        if len(pair) != 2:
+            continue
+        (cn, on), (cd, od) = pair[False], pair[True]
+        strip = lambda o: {k: v for k, v in (o.get('args') or {}).items() if k not in ('configuration_file', 'cache_directory')}  # noqa
+        what = None
+        if cn.get('missing') and (on['status'] == 'ok' or od['status'] == 'ok'):
+            what = (f'the configuration file names a secret file that does not exist; the command is not refused '
+                    f'(--config: {on["status"]}, default location: {od["status"]})')
+        elif (on['status'] == 'ok') != (od['status'] == 'ok'):
+            what = f'named with --config the run is {on["status"]} ({on.get("error") or on.get("code")}), at the default location {od["status"]}'
+        elif on['status'] == 'ok' and (strip(on) != strip(od) or on.get('backend') != od.get('backend') or on.get('loaded') != od.get('loaded')):
+            what = 'named with --config and at the default location the same file gives different effective values'
+        if what:
+            a = strip(od)
+            rep.violations.append({'what': f'configuration file {cd["given"]}: {what}; effective at the default location: ' +
+                                           str({k: a.get(rows_by_backend['pc'][n]['dest']) for n, _, _ in cd['given'] for k in [n]})[:300],
+                                   'signature': {'kind': 'default_location_config', 'missing_file': bool(cn.get('missing'))},
+                                   'replay': [label(cn), label(cd)]})
     # (4) the backend that was loaded and constructed is the one the effective repository names
     for case, obs in zip(cases, results):
         if obs['status'] == 'ok':
@@ -782,8 +870,8 @@ def check(world, cases, rep: Report, with_model=True):
             rep.disagreements.append({'what': 'the options model could not be evaluated: ' + err, 'replay': None})
             return results
         for case, obs, m in zip(cases, results, model):
-            if obs['status'] in ('timeout', 'no-result', 'no-handler'):
-                continue
+            if obs['status'] in ('timeout', 'no-result', 'no-handler') or case.get('nomodel'):
+                continue            # nomodel: the model has no file system (a secret file that does not exist)
             rep.traces_validated += 1
             if m is None:
                 if obs['status'] == 'ok':
@@ -831,6 +919,7 @@ def run(ctx) -> Report:
     cases += agreement_cases(world, ctx, ['pc', 's3c', 's3', 'pcl'])
     cases += invariance_cases(world, backends)
     cases += spelling_cases(world, ctx, ['pc', 's3', 'local'], None if thorough else 4)
+    cases += secret_file_cases(world)
     cases += exclusive_cases(world) + invalid_cases(world) + double_coercion_cases(world)
     check(world, cases, rep)
     rep.extra['processes'] = len(cases)
@@ -844,7 +933,7 @@ def search(ctx, broken) -> Report:
     backends = ['pc', 's3c', 's3', 'pcl', 'local']
     cases = precedence_cases(world, ctx, backends, all_commands=True)
     cases += agreement_cases(world, ctx, ['pc', 's3c', 's3', 'pcl']) + invariance_cases(world, backends) + exclusive_cases(world) + invalid_cases(world)
-    cases += spelling_cases(world, ctx, ['pc', 's3', 'local'], None)
+    cases += spelling_cases(world, ctx, ['pc', 's3', 'local'], None) + secret_file_cases(world)
     check(world, cases, rep, with_model=False)
     return rep
 
